@@ -385,6 +385,7 @@ type TUnsSliceAny struct {
 	kmip.Tag `kmip:"REQUEST_HEADER"`
 	S        []float64 `kmip:"-"`
 }
+
 // interface-typed fields in structs that implement no DynamicDispatch: single, repeated, repeated and required
 type TUnsIfaceOne struct {
 	kmip.Tag `kmip:"REQUEST_HEADER"`
